@@ -103,3 +103,15 @@ Definition check_bs (c : bs_case) : bool :=
   | _ => false
   end.
 Definition bs_mismatches := mismatches_with check_bs.
+
+(* ---- stream "mset": the IDSet methods of a Multi built by NewMulti (sorted = false) or
+   NewMultiSorted (sorted = true) from an arbitrary signer list (unsorted, repetitions, ids 0 and
+   2^32-1): (sorted, given signers, ForEach ids, Len, Contains probes, (k, RangeWhile after k)) ---- *)
+Definition mset_case := (bool * list N * list N * nat * list (N * bool) * (nat * list N))%type.
+Definition check_mset (c : mset_case) : bool :=
+  let '(sorted, given, enumd, l, probes, (k, rk)) := c in
+  let m := if sorted then m_new_sorted given else m_new given in
+  list_eqb N.eqb (m_enum m) enumd && Nat.eqb (m_len m) l
+  && forallb (fun p => Bool.eqb (m_contains (fst p) m) (snd p)) probes
+  && list_eqb N.eqb (m_range_count k m) rk.
+Definition mset_mismatches := mismatches_with check_mset.
